@@ -156,6 +156,8 @@ def predicted_abort(case: dict[str, Any], cfg: EnOptConfig, x: np.ndarray, ev: A
     if int(np.count_nonzero(~failed)) < int(cfg.realizations.realization_min_success) or failed.all():
         return False if not case["filters"] else None
     w = np.where(failed, 0.0, np.asarray(cfg.realizations.weights))
+    if not np.any(w > 0):
+        return None  # no weighted success at all: the value is undefined, not judged here
     certain = False
     for kind, count in (("obj", k_n), ("con", c_n)):
         for idx in range(count):
